@@ -357,6 +357,14 @@ def loop_assigned(fn, per_loop=None):
                             out.add(l.decl)
             if per_loop is not None:
                 per_loop[id(s)] = out
+                fld = set()
+                for ex in exprs:
+                    for n in walk(ex):
+                        if (n.k == 'bin' and is_assign_op(n.op)) or (n.k == 'un' and n.op in ('++', '--')):
+                            l = strip(n.a[0])
+                            if l.k == 'mem':
+                                fld.add(l.op)
+                per_loop[('fields', id(s))] = fld
             total |= out
     return total
 
@@ -394,15 +402,15 @@ class SymRule(FactRule):
         r = lin(e, None, env)
         if r is None:
             return None
-        for _ in range(4):
-            changed = False
-            for path, l2 in fields.items():
-                if path in r.t:
-                    r = r.subst(path, l2)
-                    changed = True
-            if not changed:
-                break
-        return r
+        # stored field values are expressed over entry values (the plain path) and fresh symbols, so one
+        # simultaneous substitution is exact; iterating would substitute an entry value again
+        out = Lin(None, r.c)
+        for term, coef in sorted(r.t.items()):
+            if term in fields:
+                out = out + fields[term].scale(coef)
+            else:
+                out = out + Lin({term: coef})
+        return out
 
     def set_key(self, ts, key, val):
         ts = frozenset(it for it in ts if not (isinstance(it, tuple) and len(it) == 2 and it[0] == key))
@@ -425,12 +433,16 @@ class SymRule(FactRule):
         if op == '=' and rhs is not None:
             new = self.value(rhs, ts)
         elif op in ('+=', '-=') and rhs is not None:
-            cur = self.value(lhs, ts) if key[0] == 'v' else None
             if key[0] == 'v':
                 env, _ = self.env_of(ts)
                 cur = env.get(l.decl)
                 if cur is None:
                     cur = Lin({l.op: 1})
+            else:
+                _, fields = self.env_of(ts)
+                cur = fields.get(key[1])
+                if cur is None:
+                    cur = Lin({key[1]: 1})     # value on entry
             d = self.value(rhs, ts)
             if cur is not None and d is not None:
                 new = cur + d if op == '+=' else cur - d
@@ -441,6 +453,9 @@ class SymRule(FactRule):
                 cur = Lin({l.op: 1})
             if cur is not None:
                 new = cur + Lin(None, 1 if op == '++' else -1)
+        if new is None and key[0] == 'f':
+            # a tracked field with a value the analysis cannot express: fresh symbol, never the entry value
+            new = Lin({'%s#%d' % (key[1], getattr(ctx.node, 'line', 0)): 1})
         ts = self.set_key(ts, key, new)
         return self.sym_assign(ctx, lhs, rhs, op, ts)
 
@@ -450,7 +465,7 @@ class SymRule(FactRule):
     def on_node(self, ctx, node, ts):
         # loop head: variables assigned in a loop restart every iteration from one fresh symbol per
         # loop, so that values stay linear and the exploration converges
-        if ctx.fn is self.fn and node.loop is not None and self.loopvars:
+        if ctx.fn is self.fn and node.loop is not None:
             names = {}
             for d in self.per_loop.get(id(node.loop), ()):
                 v = self.fn.locals.get(d)
@@ -462,6 +477,12 @@ class SymRule(FactRule):
                     names[d] = v.op
             for d, nm in names.items():
                 ts = self.set_key(ts, ('v', d), Lin({'%s@L%d' % (nm, node.line): 1}))
+            lf = self.per_loop.get(('fields', id(node.loop)), ())
+            if lf:
+                for it in list(ts):
+                    if isinstance(it, tuple) and len(it) == 2 and isinstance(it[0], tuple) and it[0][0] == 'f' and \
+                            it[0][1].replace('.', '->').split('->')[-1] in lf:
+                        ts = self.set_key(ts, it[0], Lin({'%s@L%d' % (it[0][1], node.line): 1}))
         return self.sym_node(ctx, node, ts)
 
     def sym_node(self, ctx, node, ts):
@@ -604,14 +625,16 @@ class GuardRule(FactRule):
     def add_fact(self, ts, name, paths):
         return ts | frozenset([('g', name, frozenset(paths))])
 
-    def interesting(self, atom):
+    def interesting(self, atom, strict=False):
         if not self.vocab:
-            return True
+            return not strict
         for n in walk(atom):
             if n.k == 'mem' and n.op in self.vocab:
                 return True
             if n.k == 'var' and n.op in self.vocab:
                 return True
+        if strict:
+            return False
         a = strip_transparent(atom)
         return a.k in ('var', 'call')
 
@@ -668,6 +691,12 @@ class GuardRule(FactRule):
         # result of an inlined helper: facts about its returned local now speak about lhs
         if rhs is not None and op == '=' and strip(rhs).k == 'call':
             ts = frozenset(self.rename_fact(it, '$ret', lp) for it in ts)
+        elif rhs is not None and op == '=' and self.interesting(lhs, strict=True) and \
+                strip(rhs).k in ('var', 'mem', 'int'):
+            # a plain copy establishes equality
+            rp = self.operand(rhs, ctx, ts)
+            if rp != lp:
+                ts = ts | frozenset([('c', '==', lp, rp)])
         return self.guard_assign(ctx, lhs, rhs, op, ts)
 
     def rename_fact(self, it, old, new):
